@@ -212,8 +212,9 @@ def find_fn(toks, match, name, context):
 # ------------------------------------------------------------------ parser
 
 class Parser:
-    def __init__(self, toks, i=0):
+    def __init__(self, toks, i=0, loops=False):
         self.t, self.i = toks, i
+        self.loops = loops       # `while` statements are parsed (element backend only; the usize backend refuses them)
 
     def peek(self, k=0):
         return self.t[self.i + k].text if self.i + k < len(self.t) else None
@@ -528,6 +529,10 @@ class Parser:
                 if self.accept(".."):
                     it = ("rangeexpr", it, self.expr(nostruct=True))
                 stmts.append(("for", p, it, self.block())); continue
+            if self.loops and self.peek() == "while" and self.kind() == "id":
+                self.next()
+                c = self.expr(nostruct=True)
+                stmts.append(("while", c, self.block())); continue
             e = self.expr()
             if self.kind() == "p" and self.peek() in ("=", "+=", "-=", "*="):
                 op = self.next().text
@@ -1878,9 +1883,9 @@ class FileUnit:
         u.defs.append((coq, text))
         return u.done[key]
 
-    def locate(self, context, name):
+    def locate(self, context, name, loops=False):
         i = find_fn(self.toks, self.match, name, context)
-        return Parser(self.toks, i).fn()
+        return Parser(self.toks, i, loops).fn()
 
     def inherent_context(self, owner):
         """the impl signature of the inherent impl block(s) of `owner` that contains fn: tried in turn"""
@@ -1915,6 +1920,70 @@ class FileUnit:
             raise Unsupported("recursive call of %s" % name)
         u.done[("free", name)] = None
         translate_target(u, kind, None, name, body)
+
+    def check_real_struct(self, name):
+        """`struct name<T> { .. }` must have exactly the configured fields, in order, all of type T"""
+        u = self if self.from_text else self.other_unit(REAL_STRUCTS[name]["decl"])
+        if ("real", name) in u.checked:
+            return
+        toks = u.toks
+        for i, t in enumerate(toks):
+            if t.text == "struct" and t.kind == "id" and toks[i + 1].text == name:
+                j = i + 2
+                while toks[j].text != "{":
+                    if toks[j].text in (";", "("):
+                        raise Unsupported("struct %s is not a struct with named fields" % name)
+                    j += 1
+                p = Parser(toks, j + 1)
+                fields = []
+                while not p.accept("}"):
+                    if p.peek() == "#":
+                        raise Unsupported("attribute on a field of struct %s" % name)
+                    if p.accept("pub"):
+                        if p.accept("("):
+                            while not p.accept(")"):
+                                p.next()
+                    f = p.ident(); p.expect(":")
+                    fields.append((f, p.ty())); p.accept(",")
+                if [f for f, _ in fields] != REAL_STRUCTS[name]["fields"] or any(ty != ("named", "T", []) for _, ty in fields):
+                    raise Unsupported("struct %s now has fields %s; the translator is configured for %s (all of type T)"
+                                      % (name, [f for f, _ in fields], REAL_STRUCTS[name]["fields"]))
+                u.checked.add(("real", name))
+                return
+        raise Unsupported("struct %s is not declared in %s" % (name, u.rel))
+
+    def real_callee(self, owner, name, coq=None, budget=False):
+        """element backend (RealTr): the `&self` method `name` of the inherent impl of `owner`"""
+        key = ("real", owner, name)
+        if key in self.done:
+            if self.done[key] is None:
+                raise Unsupported("recursive call of %s (element backend)" % name)
+            return self.done[key]
+        self.done[key] = None
+        try:
+            self.check_real_struct(owner)
+            sigs = self.inherent_context(owner)
+            fn, last = None, None
+            for sig in sigs:
+                try:
+                    fn = self.locate(sig, name, loops=True)
+                    m = re.fullmatch(r"%s<(\w+)>" % re.escape(owner), sig[2])
+                    if not m:
+                        raise Unsupported("impl %s has no single type parameter" % sig[2])
+                    tyvar = m.group(1)
+                    break
+                except Unsupported as e:
+                    last = e
+            if fn is None:
+                raise Unsupported("no unique inherent fn %s::%s (%s)" % (owner, name, last))
+            coq = coq or "gen_%s_%s" % (owner, name)
+            text, rt, fuelled = RealTr(self, owner, tyvar, budget).fn(fn, coq)
+        except Unsupported:
+            del self.done[key]
+            raise
+        self.defs.append((coq, text))
+        self.done[key] = (coq, rt, fuelled)
+        return self.done[key]
 
     def locate_inherent(self, owner, name):
         last = None
@@ -2716,6 +2785,344 @@ def numeric_unit(repo):
     return rel, out, errors
 
 
+# ------------------------------------------------------------------ element backend (numops)
+
+# Bodies over the generic element type T (src/distributions.rs: Gaussian::draw / generate_pair):
+# a value of T is a value of the carrier R of a dictionary `ops : numops R` (Model/Num.v);
+# references and clones of T are the value.  The `&mut I` source iterator is the list of the
+# numbers it will still yield; `source.next()` pops the front; every function that takes the
+# source returns (value, remaining source).  `?` on None returns (None, the source as it is then).
+# Vec<T> is a list (push = append at the end, pop = removelast).  `while` is gen_while over the
+# variables its body changes, with an explicit iteration budget `fuel` (None = budget exhausted);
+# a `for` over a usize range is gen_rfor over gen_range (no budget needed).
+REAL_STRUCTS = {"Gaussian": {"decl": "src/distributions.rs", "fields": ["mean", "variance"]}}
+REAL_UNARY = {"sqrt": "nsqrt", "ln": "nln", "cos": "ncos", "sin": "nsin", "exp": "nexp"}
+REAL_CONSTS = {"one": "none_", "zero": "nzero", "pi": "npi"}
+REAL_BIN = {"+": "nadd", "-": "nsub", "*": "nmul", "/": "ndiv"}
+REAL_EMITTED = set("ops fuel R self Return Next None Some fst snd length removelast".split())
+
+
+def _nodes(x):
+    if isinstance(x, (tuple, list)):
+        yield x
+        for y in x:
+            yield from _nodes(y)
+
+
+class RealTr:
+    def __init__(self, unit, owner, tyvar, budget=False):
+        self.u, self.owner, self.tyvar = unit, owner, tyvar
+        self.budget = budget     # the definition takes `fuel` and answers option even when the body has no `while`
+        self.n = 0               # (a stable signature: the equivalence LEMMA breaks when the loop is rewritten, not its statement)
+        self.src = None          # Rust name of the `&mut I` iterator parameter
+        self.retv = None         # text of "return this (value, source) pair from the function" (differs inside a loop body)
+        self.inloop = False
+        self.pure = False
+        self.fuelled = False
+
+    def fresh(self, base):
+        self.n += 1
+        return "%s%d" % (base, self.n)
+
+    def name(self, n, env):
+        if n in COQ_RESERVED or n in REAL_EMITTED or re.fullmatch(r"[ov]\d+", n) or n.startswith(("gen_", "N.")) \
+           or n in REAL_UNARY.values() or n in REAL_CONSTS.values() or n in REAL_BIN.values() or n == "nneg":
+            raise Unsupported("variable name `%s` clashes with a name the translator emits" % n)
+        if n in env:
+            raise Unsupported("`let %s` shadows a variable in scope (element backend)" % n)
+        return n
+
+    def need(self, ty, want):
+        if ty != want:
+            raise Unsupported("type %r where %r is required" % (ty, want))
+
+    def rty(self, t):
+        if t[0] == "named" and not t[2] and t[1] == self.tyvar:
+            return "R", "T"
+        if t[0] == "named" and not t[2] and t[1] == "usize":
+            return "N", "usize"
+        if t[0] == "named" and not t[2] and t[1] == "bool":
+            return "bool", "bool"
+        if t[0] == "named" and t[1] == "Option" and len(t[2]) == 1:
+            c, ty = self.rty(t[2][0])
+            return "option %s" % atom(c), ("opt", ty)
+        if t[0] == "named" and t[1] == "Vec" and len(t[2]) == 1 and self.rty(t[2][0])[1] == "T":
+            return "list R", "vec"
+        if t[0] == "tuple":
+            parts = [self.rty(x) for x in t[1]]
+            return " * ".join(atom(c) for c, _ in parts), ("tuple", [ty for _, ty in parts])
+        raise Unsupported("type %r in an element-backend signature" % (t,))
+
+    def effect(self):
+        if self.pure:
+            raise Unsupported("a call that reads the source inside a loop condition / branch condition")
+
+    # ---- expressions: k(term, type) -> text of everything that follows
+    def tr_list(self, es, env, k, acc=None):
+        acc = acc or []
+        if not es:
+            return k(acc)
+        return self.tr(es[0], env, lambda t, ty: self.tr_list(es[1:], env, k, acc + [(t, ty)]))
+
+    def tr(self, e, env, k):
+        kind = e[0]
+        if kind == "path":
+            segs = e[1]
+            if len(segs) == 1 and segs[0] in env:
+                return k(*env[segs[0]])
+            if segs == ["None"]:
+                return k("None", ("opt", None))
+            raise Unsupported("name %s (element backend)" % "::".join(segs))
+        if kind == "int":
+            return k("%d" % e[1], "usize")
+        if kind == "un" and e[1] in ("&", "&mut", "*"):
+            return self.tr(e[2], env, k)
+        if kind == "un" and e[1] == "-":
+            return self.tr(e[2], env, lambda t, ty: self.need(ty, "T") or k("nneg ops %s" % atom(t), "T"))
+        if kind == "un" and e[1] == "!":
+            return self.tr(e[2], env, lambda t, ty: self.need(ty, "bool") or k("negb %s" % atom(t), "bool"))
+        if kind == "field" and e[1] == ("path", ["self"]) and self.owner in REAL_STRUCTS and e[2] in REAL_STRUCTS[self.owner]["fields"]:
+            fields = REAL_STRUCTS[self.owner]["fields"]
+            return k("%s self" % ("fst", "snd")[fields.index(e[2])], "T")
+        if kind == "tuple":
+            return self.tr_list(e[1], env, lambda xs: k("(%s)" % ", ".join(t for t, _ in xs), ("tuple", [ty for _, ty in xs])))
+        if kind == "bin":
+            op = e[1]
+            def kb(xs):
+                (a, ta), (b, tb) = xs
+                if ta == tb == "T" and op in REAL_BIN:
+                    return k("%s ops %s %s" % (REAL_BIN[op], atom(a), atom(b)), "T")
+                if ta == tb == "usize" and op in CMP:
+                    fmt, swap = CMP[op][0], CMP[op][1]
+                    x, y = (b, a) if swap else (a, b)
+                    return k(fmt % (atom(x), atom(y)), "bool")
+                if ta == tb == "usize" and op == "!=":
+                    return k("negb (%s =? %s)" % (atom(a), atom(b)), "bool")
+                if ta == tb == "usize" and op in ("/", "%") and e[3][0] == "int" and e[3][1] > 0:
+                    return k("%s %s %s" % ({"/": "N.div", "%": "N.modulo"}[op], atom(a), b), "usize")
+                if ta == tb == "bool" and op in ("&&", "||") :
+                    return k("%s %s %s" % (atom(a), op, atom(b)), "bool")
+                raise Unsupported("operator %s between %r and %r (element backend)" % (op, ta, tb))
+            if op in ("&&", "||"):
+                # both operands pure: the short circuit cannot be observed
+                old, self.pure = self.pure, True
+                try:
+                    return self.tr_list([e[2], e[3]], env, kb)
+                finally:
+                    self.pure = old
+            return self.tr_list([e[2], e[3]], env, kb)
+        if kind == "call" and e[1][0] == "path":
+            segs = e[1][1]
+            if segs == ["Some"] and len(e[2]) == 1:
+                return self.tr(e[2][0], env, lambda t, ty: k("Some %s" % atom(t), ("opt", ty)))
+            if len(segs) == 2 and segs[0] == self.tyvar and segs[1] in REAL_CONSTS and not e[2]:
+                return k("%s ops" % REAL_CONSTS[segs[1]], "T")
+            if segs == ["Vec", "with_capacity"] and len(e[2]) == 1:
+                return self.tr(e[2][0], env, lambda t, ty: self.need(ty, "usize") or k("(@nil R)", "vec"))
+            if segs == ["Vec", "new"] and not e[2]:
+                return k("(@nil R)", "vec")
+            raise Unsupported("call of %s (element backend)" % "::".join(segs))
+        if kind == "mcall":
+            recv, m, args = e[1], e[2], e[3]
+            if m == "clone" and not args:
+                return self.tr(recv, env, k)
+            if m in REAL_UNARY and not args:
+                return self.tr(recv, env, lambda t, ty: self.need(ty, "T") or k("%s ops %s" % (REAL_UNARY[m], atom(t)), "T"))
+            if m == "len" and not args:
+                return self.tr(recv, env, lambda t, ty: self.need(ty, "vec") or k("N.of_nat (length %s)" % atom(t), "usize"))
+            if m == "next" and not args and recv == ("path", [self.src]):
+                self.effect()
+                o, s = self.fresh("o"), env[self.src][0]
+                return "let '(%s, %s) := gen_next %s in %s" % (o, s, s, k(o, ("opt", "T")))
+            if recv == ("path", ["self"]) and self.owner is not None:
+                # another method of the same impl that takes the source
+                if [a for a in args if a == ("path", [self.src])] != args[:1] or len(args) != 1:
+                    raise Unsupported("method %s called with arguments other than the source" % m)
+                self.effect()
+                coq, rty, fuelled = self.u.real_callee(self.owner, m)
+                if fuelled:
+                    raise Unsupported("call of %s, which contains a `while` loop" % m)
+                o, s = self.fresh("o"), env[self.src][0]
+                return "let '(%s, %s) := %s ops self %s in %s" % (o, s, coq, s, k(o, rty))
+            raise Unsupported("method %s (element backend)" % m)
+        if kind == "try":
+            def kt(t, ty):
+                if not (isinstance(ty, tuple) and ty[0] == "opt"):
+                    raise Unsupported("`?` on a non-Option")
+                self.effect()
+                v = self.fresh("v")
+                none = self.ret("None")
+                return "match %s with Some %s => %s | None => %s end" % (t, v, k(v, ty[1]), none)
+            return self.tr(e[1], env, kt)
+        raise Unsupported("expression %s (element backend)" % kind)
+
+    def pure_tr(self, e, env, want):
+        old, self.pure = self.pure, True
+        try:
+            return self.tr(e, env, lambda t, ty: self.need(ty, want) or t)
+        finally:
+            self.pure = old
+
+    # ---- statements: k(env) -> text of what follows a block that falls through
+    def bind(self, pat, t, ty, env, cont):
+        if pat[0] == "pwild":
+            return cont(env)
+        if pat[0] == "pid":
+            n = self.name(pat[1], env)
+            e2 = dict(env); e2[pat[1]] = (n, ty)
+            return "let %s := %s in %s" % (n, t, cont(e2))
+        if pat[0] == "ptuple" and isinstance(ty, tuple) and ty[0] == "tuple" and len(ty[1]) == len(pat[1]) and all(p[0] == "pid" for p in pat[1]):
+            e2 = dict(env)
+            names = []
+            for p, pty in zip(pat[1], ty[1]):
+                names.append(self.name(p[1], e2)); e2[p[1]] = (p[1], pty)
+            return "let '(%s) := %s in %s" % (", ".join(names), t, cont(e2))
+        raise Unsupported("pattern %r (element backend)" % (pat,))
+
+    def state_of(self, body, env):
+        """the variables a loop body changes, in declaration order (the source last)"""
+        touched = set()
+        for n in _nodes(body):
+            if not isinstance(n, tuple) or not n:
+                continue
+            if n[0] == "mcall" and n[1][0] == "path" and len(n[1][1]) == 1 and n[2] in ("push", "pop", "next", "truncate", "clear"):
+                touched.add(n[1][1][0])
+            if n[0] == "assign":
+                raise Unsupported("assignment inside a loop (element backend)")
+            if n == ("path", [self.src]):
+                touched.add(self.src)
+        st = [v for v in env if v in touched and v != self.src]
+        if self.src in touched:
+            st.append(self.src)
+        return st
+
+    def loop(self, s, env, cont):
+        if self.inloop:
+            raise Unsupported("a loop inside a loop (element backend)")
+        body = s[2] if s[0] == "while" else s[3]
+        st = self.state_of(body, env)
+        if not st:
+            raise Unsupported("a loop that changes nothing")
+        pat = ", ".join(env[v][0] for v in st)
+        pat = "'(%s)" % pat if len(st) > 1 else pat
+        tup = "(%s)" % ", ".join(env[v][0] for v in st) if len(st) > 1 else env[st[0]][0]
+        benv = dict(env)
+        head = None
+        if s[0] == "for":
+            it = s[2]
+            if it[0] != "rangeexpr":
+                raise Unsupported("`for` over something other than a usize range (element backend)")
+            if s[1][0] == "pwild":
+                x = "_"
+            elif s[1][0] == "pid":
+                x = self.name(s[1][1], env)
+                benv[s[1][1]] = (x, "usize")
+            else:
+                raise Unsupported("loop pattern (element backend)")
+            a, b = self.pure_tr(it[1], env, "usize"), self.pure_tr(it[2], env, "usize")
+        else:
+            cond = self.pure_tr(s[1], env, "bool")
+        old, self.retv, self.inloop = self.retv, (lambda r: "Return %s" % atom(r)), True
+        try:
+            btxt = self.block(body, benv, lambda env2: "Next %s" % atom(tup))
+        finally:
+            self.retv, self.inloop = old, False
+        if s[0] == "while":
+            return "match gen_while fuel (fun %s => %s) (fun %s => %s) %s with None => None | Some (Return r) => %s | Some (Next %s) => %s end" % (
+                pat, cond, pat, btxt, atom(tup), self.retv("r"), atom(tup), cont(env))
+        return "match gen_rfor (fun %s %s => %s) %s (gen_range %s %s) with Return r => %s | Next %s => %s end" % (
+            pat, x, btxt, atom(tup), atom(a), atom(b), self.retv("r"), atom(tup), cont(env))
+
+    def wrap(self, t):
+        return "Some %s" % atom(t) if self.fuelled else t
+
+    def ret(self, t):
+        return self.retv("(%s, %s)" % (t, self.srcname))
+
+    def block(self, b, env, k):
+        """k(env): what follows when the block falls through (its value, if any, is ignored)"""
+        if b[0] != "block":
+            raise Unsupported("a branch that is not a block")
+        return self.stmts(list(b[1]), b[2], dict(env), k, None)
+
+    def stmts(self, ss, tail, env, k, kval):
+        """kval(term, type): continuation of the block's VALUE (the function body); k: fall-through"""
+        if not ss:
+            if tail is None:
+                return k(env)
+            if tail[0] == "return":
+                return self.tr(tail[1], env, lambda t, ty: self.ret(t))
+            if kval is None:
+                return self.stmts([("expr", tail)], None, env, k, None)
+            return self.tr(tail, env, kval)
+        s, rest = ss[0], ss[1:]
+        cont = lambda env2: self.stmts(rest, tail, env2, k, kval)
+        if s[0] == "let":
+            return self.tr(s[3], env, lambda t, ty: self.bind(s[1], t, ty, env, cont))
+        if s[0] in ("while", "for"):
+            return self.loop(s, env, cont)
+        if s[0] == "expr":
+            e = s[1]
+            if e[0] == "return":
+                return self.tr(e[1], env, lambda t, ty: self.ret(t))
+            if e[0] == "mcall" and e[1][0] == "path" and len(e[1][1]) == 1 and env.get(e[1][1][0], (None, None))[1] == "vec":
+                v = env[e[1][1][0]][0]
+                if e[2] == "push" and len(e[3]) == 1:
+                    return self.tr(e[3][0], env, lambda t, ty: self.need(ty, "T") or "let %s := %s ++ [%s] in %s" % (v, v, t, cont(env)))
+                if e[2] == "pop" and not e[3]:
+                    return "let %s := removelast %s in %s" % (v, v, cont(env))
+                if e[2] == "truncate" and len(e[3]) == 1:
+                    n = self.pure_tr(e[3][0], env, "usize")
+                    return "let %s := firstn (N.to_nat %s) %s in %s" % (v, atom(n), v, cont(env))
+            if e[0] == "if":
+                c = self.pure_tr(e[1], env, "bool")
+                th = self.block(e[2], env, lambda env2: cont(env))
+                if e[3] is None:
+                    el = cont(env)
+                elif e[3][0] == "block":
+                    el = self.block(e[3], env, lambda env2: cont(env))
+                else:
+                    el = self.stmts([("expr", e[3])], None, env, lambda env2: cont(env), None)
+                return "if %s then %s else %s" % (c, th, el)
+            # any other expression statement: evaluated for its effects, value dropped
+            return self.tr(e, env, lambda t, ty: cont(env))
+        raise Unsupported("statement %s (element backend)" % s[0])
+
+    def fn(self, fn, coq):
+        if fn["selfkind"] != "ref" or self.owner not in REAL_STRUCTS:
+            raise Unsupported("element backend: a `&self` method of %s is expected" % sorted(REAL_STRUCTS))
+        env, params = {}, []
+        for p, ty in fn["params"]:
+            if p[0] != "pid":
+                raise Unsupported("parameter pattern")
+            n = self.name(p[1], env)
+            if ty[0] == "named" and ty[1] in fn["itergen"] and p[1] in fn["mutparams"]:
+                if self.src is not None:
+                    raise Unsupported("two iterator parameters")
+                self.src = p[1]
+                env[p[1]] = (n, "src"); params.append("(%s : list R)" % n)
+            else:
+                c, t = self.rty(ty)
+                env[p[1]] = (n, t); params.append("(%s : %s)" % (n, c))
+        if self.src is None:
+            raise Unsupported("element backend: no `&mut I` iterator parameter")
+        rc, rt = self.rty(fn["ret"])
+        self.fuelled = self.budget or any(isinstance(n, tuple) and n and n[0] == "while" for n in _nodes(fn["body"]))
+        self.srcname = env[self.src][0]
+        self.retv = self.wrap
+        def kval(t, ty):
+            if ty != rt and not (isinstance(ty, tuple) and ty[0] == "opt" and ty[1] is None and rt[0] == "opt"):
+                raise Unsupported("the body returns %r, the declared type is %r" % (ty, rt))
+            return self.ret(t)
+        def kfall(env2):
+            raise Unsupported("a body without a final value")
+        body = self.stmts(list(fn["body"][1]), fn["body"][2], env, kfall, kval)
+        sig = "option (%s * list R)" % atom(rc) if self.fuelled else "%s * list R" % atom(rc)
+        text = "Definition %s {R : Type} (ops : numops R) %s(self : R * R) %s : %s :=\n  %s." % (
+            coq, "(fuel : nat) " if self.fuelled else "", " ".join(params), sig, body)
+        return text, rt, self.fuelled
+
+
 # ------------------------------------------------------------------ targets and output
 
 # (source file, kind, context, fn, Coq name).  kind: fn = whole function; for = body + frame of
@@ -2844,6 +3251,74 @@ Import ListNotations.
 """
 
 
+# element backend: (source file, owner struct, fn, Coq name) -> Gen/ArithReal.v
+REAL_TARGETS = [
+    ("src/distributions.rs", "Gaussian", "generate_pair", "gen_Gaussian_generate_pair"),
+    ("src/distributions.rs", "Gaussian", "draw", "gen_Gaussian_draw"),
+]
+
+REAL_BUDGET = {"gen_Gaussian_draw"}    # these take `fuel` whether or not the body (still) has a `while`
+
+REAL_PREAMBLE = """(* GENERATED by tools/gen_arith.py (element backend) from %s — do not edit.
+   Bodies over the crate's generic element type T: a value of T is a value of the carrier R of a
+   dictionary `ops : numops R` (Model/Num.v); `self` is the tuple of the struct's fields in
+   declaration order; the `&mut I` source iterator is the list of the numbers it will still yield
+   and every function returns (value, remaining source); `?` on None returns (None, the source as
+   it is at that point).  Vec<T> is a list: push appends at the end, pop is removelast.  A `while`
+   loop runs under an explicit iteration budget `fuel` (result None = budget exhausted). *)
+From Coq Require Import List ZArith NArith Bool.
+From EasyML Require Import Base.Sx Model.Num.
+Import ListNotations.
+Open Scope N_scope.
+
+(* Iterator::next on a source of known contents *)
+Definition gen_next {X} (source : list X) : option X * list X :=
+  match source with [] => (None, []) | x :: rest => (Some x, rest) end.
+(* one iteration of a loop either returns from the function or continues with a new state *)
+Inductive flow (A S : Type) := Return (r : A) | Next (s : S).
+Arguments Return {A S} r.
+Arguments Next {A S} s.
+Fixpoint gen_while {S A} (fuel : nat) (cond : S -> bool) (body : S -> flow A S) (s : S) : option (flow A S) :=
+  if cond s then
+    match fuel with
+    | O => None
+    | S fuel' => match body s with Return r => Some (Return r) | Next s' => gen_while fuel' cond body s' end
+    end
+  else Some (Next s).
+Fixpoint gen_rfor {S A X} (body : S -> X -> flow A S) (s : S) (xs : list X) : flow A S :=
+  match xs with
+  | [] => Next s
+  | x :: rest => match body s x with Return r => Return r | Next s' => gen_rfor body s' rest end
+  end.
+Definition gen_range (a b : N) : list N := map (fun i => a + N.of_nat i) (seq 0 (N.to_nat (b - a))).
+"""
+
+
+def generate_real(repo):
+    """-> (text of Gen/ArithReal.v, [(coq, error)])"""
+    units, blocks, errors = {}, [], []
+    for rel, owner, name, coq in REAL_TARGETS:
+        try:
+            if rel not in units:
+                units[rel] = FileUnit(repo, rel)
+                units[rel].others = units
+            u = units[rel]
+            mark = len(u.defs)
+            if not any(c == coq for c, _ in u.defs):
+                u.real_callee(owner, name, coq, budget=(coq in REAL_BUDGET))
+            for c, text in u.defs[mark:]:
+                blocks.append("(* %s :: %s::%s *)\n%s" % (rel, owner, c[len("gen_%s_" % owner):], text))
+        except Unsupported as e:
+            del u.defs[mark:]
+            errors.append((coq, "%s: %s" % (rel, e)))
+            blocks.append("(* NOT TRANSLATED %s (%s, fn %s::%s): %s *)" % (coq, rel, owner, name, e))
+        except (IndexError, KeyError, StopIteration, TypeError, AttributeError) as e:
+            errors.append((coq, "%s: parse failure (%s: %s)" % (rel, type(e).__name__, e)))
+            blocks.append("(* NOT TRANSLATED %s (%s, fn %s::%s): the source could not be parsed *)" % (coq, rel, owner, name))
+    rels = ", ".join(dict.fromkeys(r for r, _, _, _ in REAL_TARGETS))
+    return REAL_PREAMBLE % rels + "\n" + "\n\n".join(blocks) + "\n", errors
+
+
 def translate_target(u, kind, ctx, name, coq):
     """translate one target into u.defs (raises Unsupported)"""
     if kind == "fn" and isinstance(ctx, str):
@@ -2864,6 +3339,8 @@ def translate_target(u, kind, ctx, name, coq):
         u.translate_positions(u.locate_inherent(ctx, name), ctx, coq, nested=True)
     elif kind in ("fnmut", "trace"):
         u.translate_fn(u.locate(ctx, name), ctx[2] if ctx else None, coq, mode=kind)
+    elif kind in ("real", "real_budget"):
+        u.real_callee(ctx, name, coq, budget=(kind == "real_budget"))
     elif kind == "fn":
         owner = ctx[2]
         if ctx[1] is None:
@@ -2915,6 +3392,15 @@ def generate(repo):
     return arith, numeric, stats
 
 
+def _real_into(stats, repo):
+    """generates Gen/ArithReal.v and adds its counts / refusals to the statistics of generate()"""
+    real, rerr = generate_real(repo)
+    stats["targets"] += len(REAL_TARGETS)
+    stats["definitions"] += len(REAL_TARGETS) - len(rerr)
+    stats["not_translated"] += ["%s: %s" % e for e in rerr]
+    return real
+
+
 def write(repo=None, dest_dir=None):
     """(callers hold build/coq.lock: regenerate_and_prove and the command line below do)"""
     if repo is None:
@@ -2922,9 +3408,10 @@ def write(repo=None, dest_dir=None):
     if dest_dir is None:
         dest_dir = os.path.join(os.path.dirname(HERE), "coq", "theories", "Gen")
     arith, numeric, stats = generate(repo)
+    real = _real_into(stats, repo)
     os.makedirs(dest_dir, exist_ok=True)
     stats["changed"] = []
-    for fname, text in (("Arith.v", arith), ("ArithNumeric.v", numeric)):
+    for fname, text in (("Arith.v", arith), ("ArithNumeric.v", numeric), ("ArithReal.v", real)):
         dest = os.path.join(dest_dir, fname)
         old = open(dest).read() if os.path.exists(dest) else None
         if old != text:              # keep the mtime (and the .vo cache) when nothing changed
@@ -2945,8 +3432,9 @@ ALT_FILES = {   # equivalence-proof target -> (generated file, proof files in bu
     "theories/Proofs/GenMatrixP.vo": ("Arith.v", ["Proofs/GenMatrixP.v"]),
     "theories/Proofs/GenIterP.vo": ("Arith.v", ["Proofs/GenIterP.v"]),
     "theories/Proofs/GenHeapP.vo": ("Arith.v", ["Proofs/GenHeapP.v"]),
+    "theories/Proofs/GenGaussianP.vo": ("ArithReal.v", ["Proofs/GenGaussianP.v"]),
 }
-ALT_MODULES = {"Gen.Arith": "Arith", "Gen.ArithNumeric": "ArithNumeric", "Proofs.GenArithP": "GenArithP"}
+ALT_MODULES = {"Gen.Arith": "Arith", "Gen.ArithNumeric": "ArithNumeric", "Gen.ArithReal": "ArithReal", "Proofs.GenArithP": "GenArithP"}
 
 
 def _alt_copy(text):
@@ -2984,9 +3472,13 @@ def regenerate_and_prove(targets):
         mk = os.path.join(vlib.COQ, "Makefile")
         if not os.path.exists(mk) or os.path.getmtime(mk) < os.path.getmtime(os.path.join(vlib.COQ, "_CoqProject")):
             vlib.sh("coq_makefile -f _CoqProject -o Makefile", cwd=vlib.COQ, check=True)
-        if vlib.REPO == "/repo":
-            st = write(vlib.REPO)
-            rc, out = vlib.sh("timeout 900 make -k -j%d %s 2>&1" % (vlib.NPROC, " ".join(targets)), cwd=vlib.COQ, timeout=1000)
+        # (session 3, lead) /repo itself takes the private path too: the Gen files committed in the
+        # development stay the ones generated at commit time (refresh them with the command line
+        # entry point below), so that a source change which the translator cannot process does not
+        # take the whole Properties file down; the regeneration and the equivalence proofs against
+        # the CURRENT source still happen on every run, here, in a private directory.
+        if False:
+            pass
         else:
             # the hand-written side (Model/*.vo ...) must be current: build the ordinary targets
             vlib.sh("timeout 900 make -k -j%d %s 2>&1" % (vlib.NPROC, " ".join(targets)), cwd=vlib.COQ, timeout=1000)
@@ -2994,6 +3486,7 @@ def regenerate_and_prove(targets):
             shutil.rmtree(d, ignore_errors=True)
             os.makedirs(d)
             arith, numeric, st = generate(vlib.REPO)
+            real = _real_into(st, vlib.REPO)
             st.update(repo=vlib.REPO, changed=[], private_dir=d)
             for e in st["not_translated"]:
                 print("gen_arith: NOT TRANSLATED " + e, file=sys.stderr)
@@ -3003,7 +3496,7 @@ def regenerate_and_prove(targets):
                 for f in [g] + proofs:
                     if os.path.basename(f) not in files:
                         files.append(os.path.basename(f))
-                        text = {"Arith.v": arith, "ArithNumeric.v": numeric}.get(f) or _alt_copy(open(os.path.join(theories, f)).read())
+                        text = {"Arith.v": arith, "ArithNumeric.v": numeric, "ArithReal.v": real}.get(f) or _alt_copy(open(os.path.join(theories, f)).read())
                         open(os.path.join(d, os.path.basename(f)), "w").write(text)
             rc, out = 0, ""
             for f in files:
@@ -3015,7 +3508,14 @@ def regenerate_and_prove(targets):
     fail = None
     if rc != 0:
         names = re.findall(r"GENERATED-EQUIVALENCE-BROKEN\s+(\w+)", out) + re.findall(r"The reference\s+(gen_\w+)\s+was not found", out)
-        fail = {"broken_lemmas": names, "not_translated": st["not_translated"], "make_log_tail": out[-2500:]}
+        proved_false = re.findall(r"GENERATED-EQUIVALENCE-BROKEN\s+(\w+)", out)
+        # 'untranslatable_only': no translated definition failed its equivalence lemma; what is
+        # missing are definitions the translator could not produce from the current source (the
+        # function was renamed or restructured beyond the supported subset).  The check then treats
+        # this tie as LOST for those functions (a notice) and relies on the correspondence tie,
+        # after a deeper search; a lemma that is proved false is a broken proof obligation.
+        fail = {"broken_lemmas": names, "not_translated": st["not_translated"], "make_log_tail": out[-2500:],
+                "untranslatable_only": bool(st["not_translated"]) and not proved_false}
     return st, fail
 
 
